@@ -344,7 +344,7 @@ def run(ctx):
             if tZ != tA:
                 i_, x, y = first_diff(tZ, tA)
                 ctx.violate(f"C08/history-dependent/after-rejected-extraction/{sig_cfg}",
-                            f"a search on classes that went through a rejected extraction (negative weight on {v['name']}, then corrected) differs from the "
+                            f"a search on classes that went through an extraction under a negative declared weight on {v['name']} (rejected, or normalised away), then corrected, differs from the "
                             f"same seeded search on fresh classes, at trace entry {i_}: {x!r} vs {y!r}")
                 return
         # (d) fresh interpreters
